@@ -48,7 +48,7 @@ NOT_PROVEN = [
     "convert_records (record transforms are abstract in the executor model): oracle only",
     "text rendering / the engine's parser: executed, not modelled",
 ]
-LEVEL_TEXT = ("Kernel-checked: for every pipeline of the unary fragment, every requested column set and every environment, the "
+LEVEL_TEXT = ("Kernel-checked: for every pipeline built from every operator except convert_records (joins of all five SQL types, concat_rows, windowed and plain extends with the SQL generator's extend merge on or off, SQLite's emulated RIGHT/FULL joins anywhere in the pipeline up to row order), every requested column set and every environment, the "
               "NearSQL tree the translation builds evaluates (under the modelled SQL engine semantics) to the reference "
               "meaning of the pipeline restricted to the requested columns - column set always, row multiset under C18's scope "
               "(total window orders / clean limit cuts) plus null-free order columns where SQL and Pandas place NULLs "
